@@ -85,6 +85,39 @@ void conversions(Ctx &c) {
     (void)outq;
 }
 
+// ---- (a2) conversions that DIVIDE by a matrix: residual of the defining system ---------------------------------
+// vnaconv_ztosn with one real reference r on every port computes S = (Z - rI)(Z + rI)^-1, i.e. solves S W = B with
+// W = Z + rI, B = Z - rI.  W is built with a prescribed condition number (1 .. 1e10): W = Q1 diag(sigma) Q2 with well
+// conditioned Q1, Q2.  Whatever the conditioning, a backward-stable solve returns an S whose residual S W - B is of
+// the order eps (|S||W| + |B|); forming the inverse explicitly and multiplying would leave eps * cond(W).
+void division_residual(Ctx &c) {
+    int n = 2 + (int)c.draw(7);
+    auto wellq = [&]() { Mat Q(n, n); for (auto &x : Q.a) x = C(c.real(-1, 1), c.real(-1, 1)); for (int i = 0; i < n; i++) Q(i, i) += C(n * (c.boolean() ? 1.0L : -1.0L), 0); return Q; };
+    Mat Q1 = wellq(), Q2 = wellq();
+    int decades = (int)c.range(0, 10);
+    // graded UPWARDS: the smallest singular value stays of the order of z0, so S = I - 2 z0 W^-1 stays bounded (a passive-looking
+    // network with some huge impedances) while cond(W) grows -- the case in which an explicit inverse shows in the residual
+    Mat D(n, n); for (int i = 0; i < n; i++) D(i, i) = C(std::pow(10.0L, (long double)decades * i / (n - 1)), 0);
+    Mat Wl = vm::mul(vm::mul(Q1, D), Q2);
+    long double r = 50;
+    std::vector<dcx> z(n * n), sv(n * n, mkc(0, 0)), z0(n, mkc(50, 0));
+    for (int i = 0; i < n; i++) for (int j = 0; j < n; j++) { C v = Wl(i, j) * 30.0L - (i == j ? C(r, 0) : C(0, 0)); z[i * n + j] = mkc((double)v.real(), (double)v.imag()); }
+    // W and B exactly as the doubles define them
+    Mat W(n, n), B(n, n);
+    for (int i = 0; i < n; i++) for (int j = 0; j < n; j++) { C v(re_(z[i * n + j]), im_(z[i * n + j])); W(i, j) = v + (i == j ? C(r, 0) : C(0, 0)); B(i, j) = v - (i == j ? C(r, 0) : C(0, 0)); }
+    long double kap = vm::cond2(W);
+    c.label("a2:division-residual"); { char l[40]; snprintf(l, sizeof l, "a2:cond=1e%d", (int)std::floor(std::log10((double)kap) + 0.5)); c.label(l); }
+    c.note("vnaconv_ztosn n=%d, uniform z0 = 50, cond(Z + z0 I) = %.3Lg", n, kap);
+    vnaconv_ztosn(z.data(), sv.data(), z0.data(), n);
+    Mat S(n, n); bool finite = true; for (int i = 0; i < n * n; i++) { S.a[i] = C(re_(sv[i]), im_(sv[i])); if (!std::isfinite(re_(sv[i])) || !std::isfinite(im_(sv[i]))) finite = false; }
+    PBT_CHECK(c, finite, "C19.division_not_finite", "vnaconv_ztosn returned a non-finite S for a non-singular Z + z0 I (cond %.3Lg)", kap);
+    Mat R = vm::add(vm::mul(S, W), B, -1);
+    long double rn = rowsum_norm(R), scale = rowsum_norm(S) * rowsum_norm(W) + rowsum_norm(B);
+    c.track_max("division: residual / (n eps scale)", (double)(rn / (n * EPS * scale)));
+    PBT_CHECK(c, rn <= 1e3L * n * EPS * scale, "C19.division_residual", "vnaconv_ztosn, n=%d, cond(Z + z0 I) = %.3Lg: |S (Z + z0 I) - (Z - z0 I)| = %.3Lg, i.e. %.3Lg n eps (|S||Z + z0 I| + |Z - z0 I|); a backward-stable solve leaves O(1)", n, kap, rn, rn / (n * EPS * scale));
+    if (kap > 1e6L) c.nontrivial();
+}
+
 // ---- (b) apply with badly scaled / singular 'a' matrices -------------------------------------------
 void apply_ab(Ctx &c) {
     Scenario sc;
@@ -265,7 +298,8 @@ void scaled_solve(Ctx &c) {
 } // namespace
 
 void pbt_property(Ctx &c) {
-    switch (c.weighted({40, 3, 3, 2, 3})) {
+    switch (c.weighted({40, 3, 3, 2, 3, 12})) {
+    case 5: division_residual(c); break;
     case 0: conversions(c); break;
     case 1: apply_ab(c); break;
     case 2: zero_pivot(c); break;
